@@ -106,6 +106,15 @@ def c01_streams(rng, tier, budget):
                       ("update_query", "K" + enc("k") + "=s" + e), ("with_query", "S" + e)):
                 st.obs_all(st.mod(h, *m), C01_OBS)
             st.obs_all(st.join(h, st.new(t)), C01_OBS)
+            # second-level: the name / suffix just written contains escapes; modify it again
+            r1 = st.mod(h, "with_suffix", enc("." + t.replace("/", "_")), "F", "F")
+            r2 = st.mod(h, "with_name", enc("n." + t.replace("/", "_")), "F", "F")
+            r3 = st.mod(h, "truediv", enc("d." + t))
+            for r in (r1, r2, r3):
+                st.obs_all(st.mod(r, "with_suffix", enc(".bak"), "F", "F"), C01_OBS)
+                st.obs_all(st.mod(r, "with_suffix", enc(""), "F", "F"), C01_OBS)
+                st.obs_all(st.mod(r, "with_name", enc("m"), "F", "F"), C01_OBS)
+                st.obs_all(st.mod(r, "parent"), C01_OBS)
         for pre in ("http://h/", "http://h/?", "http://h/#", "http://", "http://u:", "", "x:"):
             st.obs_all(st.new(pre + t + ("@h/" if pre.endswith(("//", "u:")) else "")), C01_OBS)
     yield "entry-point-matrix", st
@@ -560,7 +569,9 @@ def c04_streams(rng, tier, budget):
         for tail in ("?", "#", "?#", "?q#", "?#f"):
             st2.obs_all(st2.new(base + tail), ["str"])
     for s0 in ("x:///p", "x://", "svn-x:///a/b?q", "http://h?q", "http://h#f", "//h?q", "ws://h:8080?q#f", "http://u:p:w@h/", "http://u:a:b:c@h/p", "http:/p", "file:/p", "ftp:/a/b?q",
-               "file:///p", "http://:p@h/", "x:", "x:?q", "", "?q", "#f", "a", "a/b?q#f", "./a:b", "http://h/a:b@c", "http://h/?a:b@c/d?e", "http://h/#a:b@c/d?e"):
+               "file:///p", "http://:p@h/", "x:", "x:?q", "", "?q", "#f", "a", "a/b?q#f", "./a:b", "http://h/a:b@c", "http://h/?a:b@c/d?e", "http://h/#a:b@c/d?e",
+               # dot segments are non-canonical only UNDER AN AUTHORITY: without one they are kept
+               "/a/../b", "/.", "/..", "/a/./b/", "../a", "a/./b", "a/..", ".", "..", "mailto:/x/./y", "x:/a/../b", "x:a/../b", "/a/../b?q#f"):
         st2.obs_all(st2.new(s0), ["str"])
     yield "canonical-by-the-letter", st2
 
